@@ -585,7 +585,10 @@ func constDesc(c *ssa.Const) string {
 	if c.Value == nil {
 		return "nil:" + typeStr(c.Type())
 	}
-	return c.Value.ExactString()
+	if s := c.Value.ExactString(); len(s) <= 60 {
+		return s
+	}
+	return c.Value.String()
 }
 
 func globalName(g *ssa.Global) string {
